@@ -397,8 +397,8 @@ theorem longestOp_nonempty (ops : List (Bytes × Nat)) (bs : Bytes) {op : Bytes}
       · exact hi o' ho'
   exact key ops none (by simp) (op, ty) h
 
-theorem readDollar_lt (cls : CharClass) (tb : Tables) {bs : Bytes} {t : Tok} {rest : Bytes} (hne : bs ≠ [])
-    (h : readDollar cls tb bs = .ok (t, rest)) : rest.length < bs.length := by
+theorem readDollar_lt (cls : CharClass) (tb : Tables) (inp : Bytes) {bs : Bytes} {t : Tok} {rest : Bytes} (hne : bs ≠ [])
+    (h : readDollar cls tb inp bs = .ok (t, rest)) : rest.length < bs.length := by
   have hd : (bs.drop 1).length < bs.length := by
     cases bs with
     | nil => exact absurd rfl hne
@@ -450,7 +450,7 @@ theorem readPunctuation_lt (cls : CharClass) (tb : Tables) (inp : Bytes) {bs : B
   | cons b r1 =>
     simp only at h
     split at h
-    · exact readDollar_lt cls tb (by simp) h
+    · exact readDollar_lt cls tb inp (by simp) h
     · split at h
       · -- '@'
         cases hn : nextRune r1 with
